@@ -1359,4 +1359,41 @@ theorem run_refines_rows (ops : List (Op α)) (cols : Cols α) (hw : WF cols) (h
       exact ih r hwr hner
 
 
+/-! ### one entry by integer index -/
+
+/-- `table[i]` / `rows[i]` raise exactly outside `-n ≤ i < n` (too large AND too negative) -/
+theorem pyIndex_none_iff (n : Nat) (i : Int) : pyIndex n i = none ↔ (i < -(n : Int) ∨ (n : Int) ≤ i) := by
+  unfold pyIndex
+  split
+  · split <;> simp <;> omega
+  · split <;> simp <;> omega
+
+/-- inside the range the entry is the one at `i` for `i ≥ 0` and at `n + i` for `i < 0` -/
+theorem pyIndex_some (n : Nat) (i : Int) (k : Nat) (h : pyIndex n i = some k) :
+    k < n ∧ (k : Int) = if 0 ≤ i then i else n + i := by
+  unfold pyIndex at h
+  split at h
+  · split at h
+    · simp only [Option.some.injEq] at h; subst h; rename_i h0 _; simp [h0]; omega
+    · simp at h
+  · split at h
+    · simp only [Option.some.injEq] at h; subst h; rename_i h0 _; simp [h0]; omega
+    · simp at h
+
+/-- **one entry, columns = entries**: `table[i]` is `rows[i]` of the table's entries for every integer `i` -
+the same entry, and `IndexError` in exactly the same cases -/
+theorem pick_refines_rows (cols : Cols α) (hw : WF cols) (hne : cols ≠ []) (i : Int) :
+    pickRow cols i = pickRows (toRows cols) i := by
+  unfold pickRow pickRows
+  rw [toRows_length (nrows cols) cols hw hne]
+  cases h : pyIndex (nrows cols) i with
+  | none => rfl
+  | some k =>
+    have := (pyIndex_some _ _ _ h).1
+    simp only [Option.bind_some]
+    rw [toRows_getElem? (nrows cols) cols hw hne k, if_pos this]
+
+example : pyIndex 3 (-4) = none ∧ pyIndex 3 (-3) = some 0 ∧ pyIndex 3 2 = some 2 ∧ pyIndex 3 3 = none ∧ pyIndex 0 (-1) = none := by decide
+
+
 end C19
